@@ -158,6 +158,10 @@ func init() {
 				add(fmt.Sprintf("m2-loss%d", loss), 1+b, map[string]int{"m": 2, "loss": loss})
 				add(fmt.Sprintf("m2-loss%d-hold", loss), 1+b, map[string]int{"m": 2, "loss": loss, "hold": 1})
 			}
+			// the first client's connection is lost in the middle of the frame that carries its
+			// answer to the reverse call (the server has received half a message)
+			add("m2-lossmid-fin", 1+b, map[string]int{"m": 2, "loss": 4})
+			add("m2-lossmid-rst", 1+b, map[string]int{"m": 2, "loss": 5})
 			// two different reverse methods in flight together on each connection
 			add("m2-twometh", 1+b, map[string]int{"m": 2, "twometh": 1})
 			// only the first client registers the alias: the second one must reject the name
@@ -218,6 +222,10 @@ func revBody(s *vsched.Sched, p Param) {
 	obs := NewObs()
 	has := func(k string) bool { _, ok := obs.Get(k); return ok }
 	loss := p.I("loss")
+	if loss == 4 || loss == 5 {
+		// client-to-server frame 0 is the forward request, frame 1 the answer to the reverse call
+		w.Net.ArmFrame(0, vnet.FrameCut{Kind: map[int]vnet.FaultKind{4: vnet.FIN, 5: vnet.RST}[loss], Dir: vnet.C2S, Frame: 1, Where: vnet.MidPayload})
+	}
 	s.Teardown = w.Teardown
 	s.EnvEnabled = func(name string) bool {
 		if strings.HasPrefix(name, "whoami-") {
@@ -322,7 +330,7 @@ func revBody(s *vsched.Sched, p Param) {
 			obs.Set("ret-fwd2", "%s/%s", v, errClass(err))
 		})
 	}
-	if loss != 0 {
+	if loss >= 1 && loss <= 3 {
 		s.Go("zloss", func() {
 			switch loss {
 			case 1:
